@@ -5,7 +5,7 @@ pub static mut NOW_NS: u64 = 1_000;
 pub static mut SYMBOLIC_CLOCK: bool = false;
 pub static mut SLEEPS: u64 = 0;
 pub fn yield_point() { vsym::yield_now(); }
-pub fn on_sleep(_d: Duration) { unsafe { SLEEPS += 1; } vsym::yield_now(); }
+pub fn on_sleep(_d: Duration) { unsafe { SLEEPS += 1; } if vsym::is_cooperative() { vsym::suspend(); } else { vsym::yield_now(); } }
 fn tick() -> u64 {
     unsafe {
         if SYMBOLIC_CLOCK { let d = vsym::any_u64("clock_step"); vsym::assume(d <= 1_000_000); NOW_NS += d; } else { NOW_NS += 1; }
